@@ -12,6 +12,7 @@ import (
 func main() {
 	report.Main(map[string]*report.Check{
 		"C01": c01(),
+		"C04": c04(),
 		"C20": c20(),
 	})
 }
